@@ -1,2 +1,152 @@
-(* Props/C03doc.v — placeholder, filled in below *)
-From Ford Require Import Base.Str Doc.Meta Doc.Admon.
+(* Props/C03doc.v — property C03, documentation-text half: the rendered documentation contains every
+   word of the comment once and in order (admonition pre-processor), leading metadata lines are
+   split off and nothing else is.  Statements only; proofs in Doc/MetaProofs.v, Doc/AdmonProofs.v. *)
+From Ford Require Import Base.Str Doc.Meta Doc.Admon Doc.MetaProofs Doc.AdmonProofs.
+
+(* ------------------------------------------------------------------ metadata *)
+(* the body is a suffix of the comment; every consumed line is a keyword line, a continuation
+   line or a delimiter (blank, ---, ...) of the documented header syntax *)
+Theorem C03_meta_split : forall l m b,
+  meta_preprocessor l = (m, b) -> exists h, l = h ++ b /\ Forall meta_or_delim h.
+Proof. exact meta_split. Qed.
+Print Assumptions C03_meta_split.
+
+(* more precisely: at most one opening fence, then entry lines, then at most one closing delimiter *)
+Theorem C03_meta_shape : forall l m b,
+  meta_preprocessor l = (m, b) ->
+  exists bg ms tm, l = bg ++ ms ++ tm ++ b /\ header_shape bg ms tm.
+Proof. exact meta_shape. Qed.
+Print Assumptions C03_meta_shape.
+
+(* a comment that does not start with a fence, a keyword line or a blank line has no header *)
+Theorem C03_meta_no_header : forall x r,
+  m_begin x = false -> Meta.is_blank x || m_end x = false -> m_meta x = None ->
+  meta_preprocessor (x :: r) = ([], x :: r).
+Proof. exact meta_no_header. Qed.
+Print Assumptions C03_meta_no_header.
+
+(* completeness: a documented header closed by an empty line (or fenced by ---) is consumed
+   entirely, keys lower-cased, values stripped, continuation lines appended; the body is untouched *)
+Theorem C03_meta_header : forall H body,
+  wf_header None H -> H <> [] ->
+  meta_preprocessor (map render_h H ++ [] :: body) = (spec_meta None [] H, body).
+Proof. exact meta_header. Qed.
+Print Assumptions C03_meta_header.
+
+Theorem C03_meta_header_fenced : forall H body,
+  wf_header None H ->
+  meta_preprocessor (s "---" :: map render_h H ++ s "---" :: body) = (spec_meta None [] H, body).
+Proof. exact meta_header_fenced. Qed.
+Print Assumptions C03_meta_header_fenced.
+
+(* read_metadata (with its one-line special case) *)
+Theorem C03_read_metadata_split : forall fields l m b,
+  read_metadata fields l = (m, b) -> exists h, l = h ++ b /\ Forall meta_or_delim h.
+Proof. exact read_metadata_split. Qed.
+Print Assumptions C03_read_metadata_split.
+
+Theorem C03_read_metadata_oneline : forall fields x p,
+  before_colon x = Some p -> str_in (lower (strip p)) fields = false ->
+  read_metadata fields [x] = ([], [x]).
+Proof. exact read_metadata_oneline. Qed.
+Print Assumptions C03_read_metadata_oneline.
+
+(* ------------------------------------------------------------------ admonitions: words *)
+(* no word dropped, duplicated or reordered: every "@type" word becomes the two words
+   "@note" "Type", every "@endtype" word disappears, everything else stays, in order *)
+Theorem C03_admon_words : forall l out,
+  admon_ok l = true -> run l = Ok out -> words out = note_titles (strip_markers (words l)).
+Proof. exact admon_words. Qed.
+Print Assumptions C03_admon_words.
+
+(* when the first pass accepts a clean text, the second pass cannot raise *)
+Theorem C03_admon_total : forall l adms,
+  admon_ok l = true -> find_admonitions l = Ok adms ->
+  exists out, run l = Ok out /\ words out = spec_words l.
+Proof. exact admon_total. Qed.
+Print Assumptions C03_admon_total.
+
+(* the full statement (text may precede a start marker) is false of the code as it is *)
+Definition C03_admon_words_statement : Prop := admon_words_statement.
+
+Theorem C03_admon_words_partial : forall l out,
+  forallb (fun x => start_clean_pre x && end_clean x) l = true ->
+  existsb pretext_region l = false ->
+  run l = Ok out -> words out = spec_words l.
+Proof. exact admon_words_partial. Qed.
+Print Assumptions C03_admon_words_partial.
+
+Theorem C03_refuted_pretext : ~ C03_admon_words_statement.
+Proof. exact refuted_pretext_statement. Qed.
+Print Assumptions C03_refuted_pretext.
+
+Theorem C03_refuted_pretext_witness :
+  forallb (fun x => start_clean_pre x && end_clean x) pretext_witness = true /\
+  existsb pretext_region pretext_witness = true /\
+  run pretext_witness = Ok [s " @note Note"; s "      gamma"] /\
+  spec_words pretext_witness = [s "alpha"; s "beta"; s "@note"; s "Note"; s "gamma"] /\
+  words [s " @note Note"; s "      gamma"] = [s "@note"; s "Note"; s "gamma"].
+Proof. exact refuted_pretext. Qed.
+Print Assumptions C03_refuted_pretext_witness.
+
+(* ------------------------------------------------------------------ admonitions: errors *)
+Theorem C03_admon_errors : forall l e,
+  admon_ok l = true -> run l = Err e -> e = EEndNoStart \/ e = ETypeMismatch.
+Proof. exact admon_errors. Qed.
+Print Assumptions C03_admon_errors.
+
+Theorem C03_admon_end_without_start : forall P x R,
+  Forall plain P -> adm_search x = None -> end_search x <> None ->
+  run (P ++ x :: R) = Err EEndNoStart.
+Proof. exact end_without_start. Qed.
+Print Assumptions C03_admon_end_without_start.
+
+Theorem C03_admon_end_type_mismatch : forall P st M x R p ind ty post pre ety epost,
+  Forall plain P -> adm_search st = Some (p, ind, ty, post) -> end_search st = None ->
+  Forall plain M -> adm_search x = None -> end_search x = Some (pre, ety, epost) ->
+  lower ety <> lower ty ->
+  run (P ++ st :: M ++ x :: R) = Err ETypeMismatch.
+Proof. exact end_type_mismatch. Qed.
+Print Assumptions C03_admon_end_type_mismatch.
+
+(* ------------------------------------------------------------------ admonitions: indentation *)
+(* one iteration of the second pass, box anywhere in the text: every line strictly between the
+   start line and the end line gets four more blanks (empty lines stay empty) *)
+Theorem C03_admon_indent_step : forall ty a1 ls m le r p ind ty' post out,
+  adm_search ls = Some (p, ind, ty', post) ->
+  step (ty, length a1, length (a1 ++ ls :: m)) (a1 ++ ls :: m ++ le :: r) = Ok out ->
+  exists tail, out = a1 ++ title_block ind ty post ++ map indent1 m ++ tail.
+Proof. exact step_indents. Qed.
+Print Assumptions C03_admon_indent_step.
+
+(* the whole pre-processor on a box closed by its end marker *)
+Theorem C03_admon_indent : forall P st M x Q ind ty post pre ety epost out,
+  box_hyps P st M x Q ind ty post pre ety epost ->
+  run (P ++ st :: M ++ x :: Q) = Ok out ->
+  exists T,
+    out = P ++ title_block ind ty post ++ map indent1 M ++ map indent1 (end_keep pre) ++ T
+    /\ words T = words_line epost ++ spec_words Q.
+Proof. exact box_indent. Qed.
+Print Assumptions C03_admon_indent.
+
+(* the line after the box keeps its indentation: false of the code as it is *)
+Definition C03_admon_indent_exact_statement : Prop := box_exact_statement.
+
+Theorem C03_admon_indent_exact_partial : forall P st M x q Q ind ty post pre ety epost out,
+  box_hyps P st M x (q :: Q) ind ty post pre ety epost -> plain q ->
+  pullin_region epost q = false ->
+  run (P ++ st :: M ++ x :: q :: Q) = Ok out ->
+  exists T', out = P ++ title_block ind ty post ++ map indent1 M ++ map indent1 (end_keep pre)
+                     ++ end_extra epost ++ q :: T'.
+Proof. exact box_exact_partial. Qed.
+Print Assumptions C03_admon_indent_exact_partial.
+
+Theorem C03_refuted_pullin : ~ C03_admon_indent_exact_statement.
+Proof. exact refuted_box_exact. Qed.
+Print Assumptions C03_refuted_pullin.
+
+Theorem C03_refuted_pullin_witness :
+  run pullin_witness = Ok [s "@note Note"; s "    a"; s "    b"] /\
+  run [s "@note a"; s "@warning b"] = Ok [s "@note Note"; s "     a"; s "    @note Warning"; s "     b"].
+Proof. exact (conj refuted_pullin consecutive_boxes_nested). Qed.
+Print Assumptions C03_refuted_pullin_witness.
